@@ -588,7 +588,14 @@ def install(S):
                 order = I.val(st3, args[3])
                 desc = isinstance(order, Agg) and order.vname == 'Descending'
                 for st4, items in E.range(st3, b.fields[0], b.fields[1], descending=desc):
-                    res = [ok(Agg('()', (KeyV(key), val))) for key, val in items]
+                    def kv(key):
+                        # bucket keys of this code base are JSON encodings of a u64 / string when they have one part
+                        if len(key) == 1 and key[0][0] == 'n':
+                            return JsonV(key[0][1])
+                        if len(key) == 1 and key[0][0] == 's':
+                            return JsonV(StrV(key[0][1]))
+                        return KeyV(key)
+                    res = [ok(Agg('()', (kv(key), val))) for key, val in items]
                     yield st4, Iter('vec', items=tuple(res), pos=0)
     A('Bucket::range', r'(Readonly)?Bucket::range$', h_bucket_range)
 
